@@ -6,6 +6,7 @@ from typing import TYPE_CHECKING, cast
 from pydicom.uid import UID
 
 from pynetdicom import evt, _config
+from pynetdicom import _verif
 from pynetdicom._globals import APPLICATION_CONTEXT_NAME
 from pynetdicom.pdu_primitives import (
     A_ASSOCIATE,
@@ -575,6 +576,9 @@ class ACSE:
         #   A-RELEASE collisions
         is_collision = False
         while True:
+            if _verif.ENABLED:
+                _verif.point("acse.release_wait", self)
+
             primitive = self.dul.receive_pdu(wait=True, timeout=self.acse_timeout)
             if primitive is None:
                 # No response received within timeout window
